@@ -2,7 +2,7 @@
 # Builds the framework offline from files on disk (pre-warms the Go build cache).
 set -e
 export GOFLAGS=-mod=mod GOPROXY=off GOSUMDB=off GOTOOLCHAIN=local GOWORK=off
-V=/verif
+V=$(cd "$(dirname "$0")" && pwd)
 mkdir -p $V/.work/bin $V/evidence $V/replays
 cd $V/engine
 cp /repo/go.sum go.sum
